@@ -122,6 +122,7 @@ are never reached — neither by the first call (the reverse seek starts below t
 call (it continues downwards from `last_cursor`). Rows of other families are untouched (the OutPoint
 and sibling Tx*Script point lookups of the handlers read them). -/
 def descView (maxPre : Nat) (s : Store) (pre : List Nat) (argsLen : Nat) : Store :=
-  s.filter fun e => !(isPrefix pre e.1.bytes && bytesLt (descSeekKey maxPre pre argsLen) e.1.bytes)
+  let seek := descSeekKey maxPre pre argsLen   -- built once per query
+  s.filter fun e => !(isPrefix pre e.1.bytes && bytesLt seek e.1.bytes)
 
 end CkbVerif.Indexer
